@@ -2,13 +2,14 @@
    Statements only; proofs are in Filter/MatchProofs.v, Filter/FrontendsProofs.v, Filter/FrontendsRoundtrip.v.
 
    Model: Filter/Match.v (`Filter::matches`, early returns) and Filter/Frontends.v (`from_json` after serde_json,
-   `from_quick_xml_reader` after the element map, `filters_from_convert_format`, `EacFilter::from_str`, `to_json`).
+   `from_quick_xml_reader` after the element map, `filters_from_convert_format`, `EacFilter::from_str`, `to_json`)
+   and Filter/FrontendsXml.v (the event loops of `filters_from_dlf` / `from_quick_xml_reader` over quick-xml events).
    [re : engine -> pattern -> text -> bool] is the regular-expression oracle (is_match of the three engines),
    [valid : engine -> pattern -> bool] says whether a pattern compiles.  Nothing is assumed about either.
    The abstract filter of the property text, its meaning [aspec] and its renderings are in Filter/FrontendsSpec.v. *)
 From Coq Require Import List NArith Bool.
 From AdltV Require Import Filter.Match Filter.MatchProofs Filter.Frontends Filter.FrontendsSpec
-  Filter.FrontendsProofs Filter.FrontendsRoundtrip.
+  Filter.FrontendsProofs Filter.FrontendsRoundtrip Filter.FrontendsXml Filter.FrontendsXmlProofs.
 Import ListNotations.
 Open Scope N_scope.
 
@@ -48,12 +49,21 @@ Section Statements.
     split; [exact (conv_loads sep1 sep2 a)|exact (eac_loads valid a Hwf)].
   Qed.
 
+  (* the two event loops of the DLF loader: a file written element by element
+     (<?xml?><dltfilter> (<filter> (<name>text</name>)* </filter>)* </dltfilter>) yields, per <filter>, what the
+     second half of from_quick_xml_reader makes of its element map *)
+  Theorem C11_dlf_file_loads fs :
+    filters_from_dlf_events valid (file_events fs) = Some (map (from_dlf_attrs valid) fs).
+  Proof. exact (dlf_events_load valid fs). Qed.
+
   (* ... and that Filter decides as the property text says: the same abstract filter decides identically, and as
      [aspec], through JSON, DLF, the dlt-convert list and the ECU:APID:CTID expression *)
   Theorem C11_frontends_agree a m verbose sep1 sep2 :
     awf valid a = true -> msg_wf m = true ->
     (exists f, from_json_kv valid (render_json verbose a) = Some f /\ matches re f m = aspec re a m) /\
-    (dlf_expressible a = true -> matches re (from_dlf_attrs valid (render_dlf verbose a)) m = aspec re a m) /\
+    (dlf_expressible a = true ->
+     exists f, filters_from_dlf_events valid (file_events [render_dlf verbose a]) = Some [f] /\
+               matches re f m = aspec re a m) /\
     (conv_expressible a = true ->
      map (fun f => matches re f m) (from_convert_format (render_conv sep1 sep2 a)) = [aspec re a m]) /\
     (eac_expressible a = true ->
@@ -62,7 +72,7 @@ Section Statements.
     intros Hwf Hm. pose proof (filter_of_meaning re valid a m Hwf Hm) as M.
     destruct (C11_frontends_load_same_filter a verbose sep1 sep2 Hwf) as (Hj & Hd & Hc & He).
     split; [exists (filter_of a); split; [exact Hj|exact M]|].
-    split; [intros H; rewrite (Hd H); exact M|].
+    split; [intros H; exists (filter_of a); split; [rewrite C11_dlf_file_loads; cbn [map]; rewrite (Hd H); reflexivity|exact M]|].
     split; [intros H; rewrite (Hc H); cbn [map]; rewrite M; reflexivity|].
     intros H. exists (filter_of a). split; [exact (He H)|exact M].
   Qed.
@@ -155,6 +165,7 @@ Print Assumptions C11_matches_spec.
 Print Assumptions C11_no_ext_header_fails_id_type_level.
 Print Assumptions C11_substring_spec.
 Print Assumptions C11_frontends_load_same_filter.
+Print Assumptions C11_dlf_file_loads.
 Print Assumptions C11_frontends_agree.
 Print Assumptions C11_type_under_mask.
 Print Assumptions C11_json_roundtrip.
